@@ -253,6 +253,10 @@ func (d *dumper) fields(rv reflect.Value) []any {
 			}
 			continue
 		}
+		if t == reflect.TypeOf(data.ClassValue{}) && f.Name == "Context" {
+			fs = append(fs, []any{f.Name, nil}) // the runtime context an annotation object was created in
+			continue
+		}
 		if t == reflect.TypeOf(node.ClassStatement{}) && f.Name == "Construct" {
 			// derived: NewClassStatement recomputes it from the class's own methods, an inherited one is
 			// found by `new` at run time (node.constructOf)
@@ -298,6 +302,11 @@ func (d *dumper) val(rv reflect.Value) any {
 			return nil
 		}
 		if rv.Type().Elem().Kind() == reflect.Struct {
+			if pp := rv.Type().Elem().PkgPath(); !strings.HasSuffix(pp, "/node") && !strings.HasSuffix(pp, "/data") {
+				// an object of the standard library (annotation classes, built-in constructors ...): the
+				// emitter distinguishes these by type only; their internals are runtime wiring
+				return map[string]any{"s": "opaque:" + typeName(rv.Type())}
+			}
 			if n := d.seen[rv.Pointer()]; n > 0 {
 				return map[string]any{"bad": "cycle:" + typeName(rv.Type())}
 			}
